@@ -143,4 +143,58 @@ Proof.
   destruct (HD d (Hnames d Hd)) as [_ Einp].
   rewrite Einp. apply (HL u p d q Hk). rewrite <- Elast. exact Hv.
 Qed.
+
+(* ---------- the same on scripts of master ticks and interrupts of the top-level devices in ys *)
+Theorem inline_all_devices_script initial script ys : (forall y w, In (IStim y w) script -> In y ys) ->
+  forall k cfg, scope_all k (S f) ys cfg = true ->
+  devices_below (inline_all k cfg) (S (S f)) top = devices_below cfg (S (S f)) top /\
+  forall z, In z (devices_below cfg (S (S f)) top) ->
+    wrel (fst (sim_script_from_start cfg devf (S f) initial script)) (fst (sim_script_from_start (inline_all k cfg) devf (S f) initial script)) z.
+Proof.
+  intros Hys. induction k as [|k IH]; intros cfg H.
+  - cbn [inline_all]. split; [reflexivity|]. intros z _. apply wrel_refl.
+  - cbn [inline_all]. cbn [scope_all] in H.
+    destruct (first_sys (l_order (level_of cfg top))) as [[c lvc]|] eqn:Ef; [|split; [reflexivity | intros z _; apply wrel_refl]].
+    destruct (shape_at cfg (S f) c) as [[[[lvc' pre] inn] post]|] eqn:Es; [|discriminate].
+    apply andb_true_iff in H. destruct H as [E H]. apply andb_true_iff in E. destruct E as [E Hin]. apply Pos.eqb_eq in E. subst lvc'.
+    destruct (shape_at_sound cfg f c lvc pre inn post Es) as [Hsh Hsib].
+    assert (Hok : outer_script pre post script).
+    { intros y w Hi. apply memb_In. apply (proj1 (forallb_forall _ _) Hin y). apply (Hys y w Hi). }
+    pose proof (script_run_inline cfg c lvc pre inn post Hsh devf Hnd Hext f Hsib initial script Hok) as A.
+    destruct (IH (inline cfg c lvc) H) as [ED IHd].
+    pose proof (devices_inline cfg c lvc pre inn post Hsh f Hsib) as ED1.
+    split; [rewrite ED; exact ED1|].
+    intros z Hz.
+    destruct (sim_script_from_start cfg devf (S f) initial script) as [s0 o0].
+    destruct (sim_script_from_start (inline cfg c lvc) devf (S f) initial script) as [s1 o1].
+    cbn [fst] in *. destruct A as [HB _].
+    pose proof (B_all_devices cfg c lvc pre inn post Hsh f s0 s1 HB z Hz) as D1.
+    eapply wrel_trans; [apply drel_wrel; exact D1|]. apply IHd. rewrite ED1. exact Hz.
+Qed.
+
+Theorem nested_latest_any_depth_script initial script ys k cfg :
+  (forall y w, In (IStim y w) script -> In y ys) ->
+  (forall y, In y ys -> y <> ext_id /\ y <> exp_id) ->
+  scope_all k (S f) ys cfg = true ->
+  flat_wf (level_of (inline_all k cfg) top) ->
+  LATEST (l_conns (level_of (inline_all k cfg) top)) (fst (sim_script_from_start cfg devf (S f) initial script)).
+Proof.
+  intros Hys Hreal Hs Hwf.
+  destruct (inline_all_devices_script initial script ys Hys k cfg Hs) as [ED HD].
+  assert (Hok : forall c w, In (IStim c w) script -> c <> ext_id /\ c <> exp_id) by (intros c w Hi; apply Hreal; apply (Hys c w Hi)).
+  pose proof (sim_script_from_start_latest (inline_all k cfg) devf (S f) Hwf Hnd initial script Hok) as HL.
+  assert (Hnames : forall z, In z (map fst (l_order (level_of (inline_all k cfg) top))) -> In z (devices_below cfg (S (S f)) top)).
+  { intros z Hz. rewrite <- ED.
+    change (devices_below (inline_all k cfg) (S (S f)) top) with
+      (flat_map (fun ck : comp * ckind => match snd ck with KDev => [fst ck] | KSys lv' => devices_below (inline_all k cfg) (S f) lv' end)
+                (l_order (level_of (inline_all k cfg) top))).
+    apply in_map_iff in Hz. destruct Hz as [[x kd] [E Hx]]. cbn [fst] in E. subst x.
+    apply in_flat_map. exists (z, kd). split; [exact Hx|].
+    pose proof (inline_all_flat k (S f) ys cfg Hs (z, kd) Hx) as Ek. cbn [snd] in Ek. subst kd. left. reflexivity. }
+  intros u p d q Hk v Hv.
+  destruct Hwf as [_ [_ [_ [Hends _]]]]. destruct (Hends u p d q Hk) as [Hu Hd].
+  destruct (HD u (Hnames u Hu)) as [Elast _].
+  destruct (HD d (Hnames d Hd)) as [_ Einp].
+  rewrite Einp. apply (HL u p d q Hk). rewrite <- Elast. exact Hv.
+Qed.
 End All.
